@@ -561,10 +561,16 @@ func (p *Parser) evaluateBuiltInFunction(tokenType lexer.TokenType, keyword stri
 	// Evaluate arguments if it's a print call with arguments.
 	if nextToken.Type() != lexer.CLOSING_ROUND_BRACKET {
 		for {
+			argToken := p.peek()
 			expr, err := p.evaluateExpression(ctx)
 
 			if err != nil {
 				return nil, err
+			}
+
+			// An argument must be a value, a call of a function without return values is none.
+			if expr.ValueType().DataType() == DATA_TYPE_UNKNOWN {
+				return nil, p.expectedError(fmt.Sprintf("value as argument of %s", keyword), argToken)
 			}
 			expressions = append(expressions, expr)
 			nextToken = p.peek()
@@ -2725,11 +2731,12 @@ func (p *Parser) evaluateSliceAssignment(ctx context) (Statement, error) {
 	if err != nil {
 		return nil, err
 	}
-	variableDataType := variableValueType.DataType()
-	assignedDataType := value.ValueType().DataType()
+	elementValueType := NewValueType(variableValueType.DataType(), false)
+	assignedValueType := value.ValueType()
 
-	if variableDataType != assignedDataType {
-		return nil, p.expectedError(fmt.Sprintf("%s value but got %s", variableDataType, assignedDataType), valueToken)
+	// The assigned value must have the slice's element type (a slice is not an element).
+	if !assignedValueType.Equals(elementValueType) {
+		return nil, p.expectedError(fmt.Sprintf("%s value but got %s", elementValueType.String(), assignedValueType.String()), valueToken)
 	}
 	return SliceAssignment{
 		Variable: variable,
